@@ -176,7 +176,19 @@ func genC39Once(r *Rand, tier string, budget int) (Case, c39W) {
 		body := g.block(sc, 1, 2+r.Intn(3))
 		// two out of three functions end with a plain `out`, so that normal completion has exit number 0; the
 		// others may end in a loop (possibly one that feeds a pipeline): then only `return n` fixes the exit number
-		if r.Intn(3) != 0 {
+		switch r.Intn(4) {
+		case 0: // ends in whatever the generator produced
+		case 1: // ends in a loop that feeds a pipeline and returns from inside it: the pipeline tail is still running
+			g.loopN++
+			l := lnode{T: "foreach", K: 2 + r.Intn(4), V: fmt.Sprintf("e%d", g.loopN), Piped: true}
+			inner := &c39scope{names: []string{fname, "foreach"}, vars: []string{l.V}, fname: fname}
+			l.Kids = append(l.Kids, g.out(inner))
+			l.Kids = append(l.Kids, lnode{T: "if", Op: "==", CV: l.V, C: 1 + r.Intn(l.K), Kids: []lnode{{T: "return", K: 1 + r.Intn(8)}}})
+			if r.Bool() {
+				l.Kids = append(l.Kids, g.out(inner))
+			}
+			body = append(body, l)
+		default:
 			body = append(body, g.out(sc))
 		}
 		w.Funcs = append(w.Funcs, body)
